@@ -227,12 +227,16 @@ def main(tier, args):
                    "lengths 3-%d x 6 patterns vs bitwise references and python zlib/binascii/RFC 1071, 21 lengths up to 1 MiB+1 x 3 fills. MD5: lengths 0-%d x 2 patterns x {single, every 2-way split, %s3-way grid, "
                    "byte-at-a-time, two instances fed alternately} vs hashlib; 2^29+5 zero bytes (bit counter carries into its high word) as %s. AES-128: 11 published known answers, all 128x128 single-bit key/block pairs%s vs a FIPS-197 reference and a pure-python AES, "
                    "invcipher(cipher(x))==x, each on a fresh object, on an unkeyed object after setKey, and on an object keyed with another key then re-keyed, working in place (input==output), "
-                   "a second block on the same object, re-keyed back and forth, with a second live object under the other key."
+                   "a second block on the same object, re-keyed back and forth, with a second live object under the other key. "
+                   "Start alignment (sweep align): every buffer above starts 16-byte aligned, so the small-length part of every raw-pointer sweep (CRC/checksums: lengths 0-1 all, 2 over A20, 3-48 x 6 patterns, 3 seeds + every "
+                   "chained 2-way split; MD5 lengths 0-%d with all update splits; AES known answers + 128 bit pairs incl. in-place; Base64/hex round trips to length 40 and hostile strings to length 3 over A20; scalable integer "
+                   "values x buffer size 0..11; Serializer/Deserializer sequences of 0-2 items) is repeated with every input, output, key, blob and digest buffer starting at offset 1..7 inside an exact-size heap block "
+                   "(all buffers at the same offset, or rotating by 3 from buffer to buffer: 15 configurations; the bytes in front of a buffer must stay untouched)."
                    % (a3, ml, "all 256 values" if thorough else "the 40-value alphabet A40", a4, ", hex/URL length 4 over A40 (2 560 000)" if thorough else "",
                       ", +-20000 around every boundary" if thorough else "", " and 3" if thorough else "", 6 if thorough else 4, 4 if thorough else 3,
                       2000 if thorough else 300, 300 if thorough else 130, "every 3-way split for L<=130, " if thorough else "",
                       "one update, 2^28+3|2^28+2, 2^29|5, 5|2^29, and a 1 MiB pattern block x 512 + tails {0,1,55,56,64}" if thorough else "one update and as 2^28+3|2^28+2 (low-word wrap)",
-                      ", bit keys x byte blocks, byte keys x bit blocks, 4096 patterned pairs" if thorough else ""),
+                      ", bit keys x byte blocks, byte keys x bit blocks, 4096 patterned pairs" if thorough else "", 130 if thorough else 70),
               assumptions=["both sanitizer runtimes report a faulting code location once per process; the input shown is the first one in enumeration order (shortest first) reaching it",
                            "a decoder that leniently accepts an invalid string without any memory error is not counted as a violation (shown as outcome)",
                            "for std::string-taking functions (hex, URL, Base64 string overloads) an over-read through operator[]/front/back aborts (_GLIBCXX_ASSERTIONS); one through a raw data() pointer that stays inside the string's capacity is not observable",
@@ -240,4 +244,5 @@ def main(tier, args):
                            "a Serializer append whose CLAIMED source length is >= SIZE_MAX-pos (no such object can exist) is outside the statement; the probe for it is off by default (C19_SER_HUGE_APPEND=1)",
                            "a call into the real code that never returns is reported by a SIGALRM watchdog at 3 x deadline + 120 s",
                            "MD5/AES equality is decided on the enumerated messages, keys and blocks only",
+                           "start offsets are varied for lengths up to 40-70 bytes only; a read BEFORE the start of an offset buffer lands in the harness's own prefix bytes and is not observable (a write is)",
                            "isprint() on a negative char (url.cpp) is not diagnosed by ASan/UBSan; glibc's table covers -128..255"])
